@@ -242,6 +242,7 @@ def run(ctx, rep):
                 detf = 'flag `%s` cleared inside the file loop: %s' % (fl, okf)
     pool_order_rule(P, rep, 'R-C20-5o')
     unsynced_count_rule(P, rep, 'R-C20-4n')
+    unsynced_reported_rule(P, rep, 'R-C20-4e')
     from .C11 import invalid_walk_rule, hash_provenance_share
     invalid_walk_rule(P, rep, 'R-C20-4w', 'state_status', 'status reports the array as fully synced (no unsynced / unscrubbed stripe behind the used size is counted)')
     from .carried import carried_flags_rule
@@ -329,3 +330,24 @@ def unsynced_count_rule(P, rep, rid):
         rep.check(not bad, rid, 'state_status: ++unsynced_blocks is independent of the stripe info', inc.loc(),
                   'guards do not read the info word' if not bad else 'the count is taken only under a test of the info word (line %s): stripes that never had parity computed (info 0: files added and not yet synced) are not counted, status can say "No sync is in progress" on an unsynced array' % bad[0].line,
                   function='state_status', construct='unsynced count under info test')
+
+
+def unsynced_reported_rule(P, rep, rid):
+    """whatever else status prints, it says whether unsynced stripes are recorded: every path from the end of the counting loop to a
+    return passes a test of the unsynced counter (the report of "NOT fully synced" hangs on it).  An early return for an array
+    "without information" skips it exactly when no stripe was ever synced and every recorded file is waiting for its first sync."""
+    f = P.fn('state_status')
+    rep.analysed(f)
+    rep.rule(rid, 'state_status: every return is reached through a test of the unsynced counter', 1)
+    tests = []
+    for b in range(len(f.blocks)):
+        t = f.term(b)
+        if t.op == 'br' and len(t.ops) == 3 and f.loop_of(b) is None and 'unsynced_blocks' in f.xexpr(t.ops[0]):
+            tests.append(t)
+    if not tests:
+        raise AnalysisBroken('state_status: no test of the unsynced counter outside the loops')
+    bad = [r for r in f.returns() if not f.must_pass(r, tests)]
+    path = f.find_path(f.entry(), bad[0], stop={t.id for t in tests}) if bad else None
+    rep.check(not bad, rid, 'state_status always reports on unsynced stripes', tests[0].loc(),
+              '%d test(s); every return passes one' % len(tests) if not bad else 'a return is reachable without any test of the unsynced counter (lines %s): with recorded but never synced files status stops at "The array is empty." although summary:has_unsynced is not zero' % [p_.line for p_ in (path or [])][-5:],
+              function='state_status', construct='return without unsynced report')
